@@ -21,7 +21,7 @@ META = {
                    "(and nothing panics: C04). R09.pattern: the require/last-argument/string-literal pattern and the >= 32 threshold are checked by C05-C08's spec comparison.",
     "assumptions": ["PartialOrd on (i32,i32,i32) is lexicographic (std contract)",
                     "R09.extract interprets the version pattern literal with Python's re on a finite grid of pragma spellings (the regex crate's engine is trusted to agree on this fragment)"],
-    "floors": {"R09.walker": 1, "R09.formula": 4, "R09.compl": 1, "R09.pragma": 5, "R09.extract": 3, "R09.none": 4, "R09.pattern.must": 4, "R09.pattern.mustnot": 4},
+    "floors": {"R09.walker": 1, "R09.lines": 1, "R09.formula": 4, "R09.compl": 1, "R09.pragma": 5, "R09.extract": 3, "R09.none": 4, "R09.pattern.must": 4, "R09.pattern.mustnot": 4},
 }
 
 VERSION_FN = "analyzer::utils::get_solidity_version_from_source_unit"
@@ -104,6 +104,9 @@ def run(ctx, crate):
     obs.append(depend.inherited(ctx, crate, "R09.walker", "analyzer::ast::walk_node_for_targets", "the search reaches every nested position (C01's obligations on the walker)",
                                 "C01", lambda o: o.rule in ("R01.children", "R01.order", "R01.once", "R01.uncond", "R01.preorder", "R01.loops", "R01.entry"),
                                 example="the pattern inside !( .. ) or inside a catch body"))
+    # "a line is reported": the line is the detector's location converted by the shared lookup (C02's obligations on the line function and its use)
+    obs.append(depend.inherited(ctx, crate, "R09.lines", "analyzer::utils::get_line_number", "a finding's line is the line its construct begins on (C02's obligations on the line lookup)",
+                                "C02", lambda o: o.rule in ("R02.canon", "R02.range", "R02.plumb"), example="a multi-byte character in a comment before the construct"))
     G = grid(ctx.tier)
     gates = {}
     for name, (fn, flag) in DETECTORS.items():
